@@ -10,6 +10,8 @@ Model of the metadata-refresh side of C15: `scylla/src/cluster/state.rs`
 * `refresh`                       ← `ClusterState::new_updated` / `new_with_updated_topology` (205-270), tablets part.
 * `learn`                         ← one iteration of `ClusterState::update_tablets` (647-675): `Tablet::from_raw_tablet` against
                                     the current `known_nodes`, then `TabletsInfo::add_tablet`.
+* `refreshTopology`               ← `ClusterState::new_with_updated_topology` (242-270): peers only, the keyspaces of `self`.
+* `locatorTabletReplicas`         ← the tablet branch of `ReplicaLocator::replicas_for_token` (`routing/locator/mod.rs:111-124`).
 * `learnBatch`                    ← `ClusterState::update_tablets` itself: the `for (table, raw_tablet) in raw_tablets` loop over
                                     ONE BATCH, in order, with the translator closure over `self.known_nodes` built once.
 
@@ -100,6 +102,26 @@ def learn (cs : CState) (spec : String × String) (first last : Int) (raw : List
   let r := cs.info.addTablet spec (Tablet.fromRaw first last raw (translator cs.known))
   ({ cs with info := r.1 }, r.2)
 
+/-- `new_updated` with the keyspaces given with tables and views apart -/
+def refreshKs (cs : CState) (peers : List Peer) (keyspaces : List KsMeta) : CState :=
+  refresh cs peers (keyspaces.map KsMeta.entry)
+
+/-- `ClusterState::new_with_updated_topology`: only the peers are new; `self.keyspaces` (the keyspaces of the
+previous state, an explicit argument here) are handed to `perform_tablets_maintenance` again. -/
+def refreshTopology (cs : CState) (peers : List Peer) (keyspacesOfPrevious : List KsMeta) : CState :=
+  refreshKs cs peers keyspacesOfPrevious
+
+/-- The tablet branch of `ReplicaLocator::replicas_for_token` (`locator/mod.rs:111-124`): `none` = the table is not
+in the tablet map (the caller falls back to the token ring, outside this model); otherwise the tablet's replicas —
+all of them or those of the datacenter — and the empty list when no tablet is known for the token. -/
+def locatorTabletReplicas (inf : Info) (spec : String × String) (tok : Int) (dc : Option String) : Option (List Rep) :=
+  match alGet spec inf.tables with
+  | none => none
+  | some tbl =>
+    some ((match dc with
+      | some d => dcReplicasForToken tbl.tablets tok d
+      | none => replicasForToken tbl.tablets tok).getD [])
+
 /-- one raw tablet of a batch: table, token range, raw replicas -/
 abbrev RawItem := (String × String) × Int × Int × List (Nat × Nat)
 
@@ -109,7 +131,10 @@ def learnItem (tr : Nat → Option Node) (acc : Info × Bool) (it : RawItem) : I
   (r.1, acc.2 && r.2)
 
 /-- `ClusterState::update_tablets`: every tablet of the batch, in the order of the batch (later tablets of the same
-batch overwrite earlier ones they overlap); `false` = some `add_tablet` panicked (ill-formed tablets only) -/
+batch overwrite earlier ones they overlap); `false` = some `add_tablet` panicked (ill-formed tablets only).
+Difference to the Rust, unreachable: after a panicking `add_tablet` the Rust loop is unwound (the rest of the batch is
+not processed) while this fold goes on; `Props.C15.learnBatch_no_panic` proves that no item of a batch of non-empty
+ranges panics on a well-formed tablet map, so the two never differ on what `from_custom_payload` can produce. -/
 def learnBatch (cs : CState) (batch : List RawItem) : CState × Bool :=
   let r := batch.foldl (learnItem (translator cs.known)) (cs.info, true)
   ({ cs with info := r.1 }, r.2)
